@@ -41,38 +41,61 @@ HC = dict(prop='C12', clauses=CLAUSES, proto=4, max_in_flight=4, orphaned_thresh
           shutdown=True, convict=True)
 LEG = dict(prop='C12', clauses=CLAUSES, proto=2, max_in_flight=2, trash_interval=0, core=1, max_conns=2, min_reqs=0, max_reqs=1,
            n_req=3, max_defunct=1, max_fail=1, shutdown=True, convict=False)
+import os
+TRY3 = bool(os.environ.get('C12_TRY3'))
 OVERLOADED = [('req',), ('req',), ('timeout', 0), ('timeout', 1)]
 
 
 def e_configs(ctx):
+    # name, parameters, depth bound (quick, thorough)
     q = [
-        ('hc-convict', dict(HC), 8),
-        ('hc-replace-on-failure', dict(HC, convict=False), 7),
-        ('hc-overloaded', dict(HC, prefix=OVERLOADED, n_req=5, max_in_flight=5, convict=False), 5),
-        ('hc-tight', dict(HC, max_in_flight=3, n_req=4, max_defunct=0, max_fail=0), 8),
-        ('v2-pool', dict(LEG), 6),
-        ('v2-pool-convict', dict(LEG, convict=True, max_defunct=1), 6),
+        ('hc-convict', dict(HC), 8, 10),
+        ('hc-replace-on-failure', dict(HC, convict=False), 7, 10),
+        # the connection has reached the orphan threshold; deep enough for: request (replacement queued), refused connect,
+        # request in the retry window, two tasks, shutdown
+        ('hc-overloaded', dict(HC, prefix=OVERLOADED, n_req=5, max_in_flight=5, convict=False), 6, 8),
+        # the replacement of the overloaded connection was refused once and waits in the queue to be retried (it may be refused again)
+        ('hc-replace-refused', dict(HC, prefix=OVERLOADED + [('req',), ('task', 0, 'fail')], n_req=5, max_in_flight=5, max_fail=2,
+                                    max_defunct=0, convict=False), 6, 8),
+        ('hc-tight', dict(HC, max_in_flight=3, n_req=4, max_defunct=0, max_fail=0), 8, 10),
+        ('v2-pool', dict(LEG), 6, 9),
+        ('v2-pool-convict', dict(LEG, convict=True, max_defunct=1), 6, 8),
         # thresholds 1/2: a connection with a request in flight is set aside (trashed) when the load drops
-        ('v2-trash', dict(LEG, min_reqs=1, max_reqs=2, max_in_flight=3, n_req=3, max_defunct=0, max_fail=0), 8),
+        ('v2-trash', dict(LEG, min_reqs=1, max_reqs=2, max_in_flight=3, n_req=3, max_defunct=0, max_fail=0), 8, 10),
     ]
     if ctx.thorough:
-        q = [(n, dict(p, drain_orders=('resp', 'timeout'), task_window=2), d + (2 if n in ('hc-convict', 'hc-tight', 'v2-trash', 'v2-pool-convict') else 3))
-             for n, p, d in q]
-    return q
+        return [(n, dict(p, drain_orders=('resp', 'timeout'), task_window=2), dt) for n, p, dq, dt in q]
+    return [(n, p, dq) for n, p, dq, dt in q]
 
 
 def s_configs(ctx):
     hc = dict(prop='C12', clauses=CLAUSES, proto=4, max_in_flight=4, orphaned_threshold=2)
     leg = dict(prop='C12', clauses=CLAUSES, proto=2, max_in_flight=2, trash_interval=0, convict=False)
     b = 2 if ctx.thorough else 1
-    return [
+    three = [
+        # one free slot, three clients and nobody who frees another: with two preemptions all three can sit between the
+        # capacity test and the increment
+        ('hc-one-slot-three-clients', dict(hc, max_in_flight=3, stage=[('req',)], shutdown_at_end=True,
+                                           threads=['client', 'client', 'client']), 2),
+        ('v2-one-slot-three-clients', dict(leg, max_conns=1, stage=[('req',)], shutdown_at_end=True,
+                                           threads=['client', 'client', 'client']), 2),
+    ] if ctx.thorough or TRY3 else []
+    return three + [
         # a replacement task is queued, one live request is on the overloaded connection
         ('hc-replace-vs-shutdown', dict(hc, stage=OVERLOADED + [('req',)], threads=['worker', 'shutdown', 'reactor']), b),
         # a borrow, the return of an answered request and the shutdown overlap
         ('hc-borrow-return-shutdown', dict(hc, stage=[('req',)], threads=['client', 'reactor', 'shutdown']), b),
         # two clients compete for the last slot while the reactor frees one
-        ('hc-last-slot', dict(hc, max_in_flight=3, stage=[('req',), ('req',)],
-                              threads=['client', 'client', 'reactor'] if ctx.thorough else ['client', 'reactor']), b),
+        ('hc-last-slot', dict(hc, max_in_flight=3, stage=[('req',), ('req',)], shutdown_at_end=True,
+                              threads=['client', 'client', 'reactor']), b),
+        # the replacement was queued; its connect may be refused (then it is retried) while a client borrows
+        ('hc-replace-refused-vs-borrow', dict(hc, max_in_flight=6, stage=OVERLOADED + [('req',)], max_fail=1, shutdown_at_end=True,
+                                              threads=['worker', 'client', 'reactor']), b),
+        # v2: the only connection is one request short of full and two clients borrow at once (who loses waits for a slot)
+        ('v2-last-slot', dict(leg, stage=[('req',)], shutdown_at_end=True, threads=['client', 'client', 'reactor']), b),
+        # v2: the only connection is full, two clients wait for the slot the reactor frees
+        ('v2-full-two-waiters', dict(leg, max_conns=1, stage=[('req',), ('req',)], shutdown_at_end=True,
+                                     threads=['client', 'client', 'reactor']), b),
         # v2: the growth task is queued (one request in flight >= max_requests)
         ('v2-grow-vs-shutdown', dict(leg, stage=[('req',)], threads=['worker', 'shutdown', 'reactor']), b),
         # v2: two connections, a borrow overlaps the return that trashes one of them and the shutdown
